@@ -51,6 +51,7 @@ class Fn:
         self._defs = None
         self._rpo = None
         self._chains = {}
+        self._domsets = {}
 
     # short human name, e.g. `Task::update` or `<Step as ActTask>::next`
     @property
@@ -170,8 +171,15 @@ class Fn:
         self._chains[b] = chain
         return chain
 
+    def dom_set(self, b):
+        ds = self._domsets.get(b)
+        if ds is None:
+            ds = frozenset(self.dom_chain(b))
+            self._domsets[b] = ds
+        return ds
+
     def dominates(self, a, b):
-        return a in self.dom_chain(b)
+        return a in self.dom_set(b)
 
     def reach_from(self, starts, avoid=()):
         """blocks reachable from any of `starts` (inclusive) without entering a block in `avoid`"""
@@ -571,13 +579,17 @@ class Prov:
             return ("deep", loc)
         # closure environment
         if loc == 1 and fn.upvars and fn.defkind in ("Closure",):
+            # captured variables live in fields of the closure environment _1 (by value or by
+            # reference); dereferences are transparent, so compare the field paths only
+            mine = [e for e in proj if e != "*"]
             best = None
             for name, (l, p) in fn.upvars:
-                if l == 1 and proj[: len(p)] == p:
-                    if best is None or len(p) > len(best[1]):
-                        best = (name, p)
+                up = [e for e in p if e != "*"]
+                if l == 1 and up and mine[: len(up)] == up:
+                    if best is None or len(up) > len(best[1]):
+                        best = (name, up)
             if best is not None:
-                rest = fields_of(proj[len(best[1]):])
+                rest = fields_of(mine[len(best[1]):])
                 return ("upvar", best[0], rest)
         if 1 <= loc <= fn.argc:
             return ("param", loc, fn.names.get(loc), fs)
